@@ -83,6 +83,15 @@ type IndCase struct {
 	Suffix gen.Bars   `json:"suffix"`
 }
 
+// genBars: "all series" - in 1/8 of the draws a few values are missing (NaN).
+func genBars(t *rapid.T, n int) gen.Bars {
+	b := gen.GenBars(t, n)
+	if rapid.IntRange(0, 7).Draw(t, "with_gaps") == 0 {
+		b = gen.WithGaps(t, b)
+	}
+	return b
+}
+
 func genCut(t *rapid.T, n, w int) int {
 	if n == 0 {
 		return 0
@@ -104,7 +113,7 @@ func indProp(ind reg.Ind) engine.AnyProp {
 			cfg := ind.GenConfig(t, 0)
 			w := ind.Idle(cfg)
 			n := rapid.IntRange(0, 3*w+20).Draw(t, "n")
-			return IndCase{Cfg: cfg, Bars: gen.GenBars(t, n), M: genCut(t, n, w), Suffix: gen.GenBars(t, rapid.IntRange(0, w+12).Draw(t, "ns"))}
+			return IndCase{Cfg: cfg, Bars: genBars(t, n), M: genCut(t, n, w), Suffix: genBars(t, rapid.IntRange(0, w+12).Draw(t, "ns"))}
 		},
 		Check: func(c IndCase) engine.Outcome {
 			var o engine.Outcome
@@ -181,7 +190,7 @@ func baseStratProp(st sreg.Strat) engine.AnyProp {
 			tr := sreg.Tree{Op: "leaf", Leaf: st.Name, Cfg: st.GenConfig(t)}
 			w := tr.Warm()
 			n := rapid.IntRange(0, 3*w+20).Draw(t, "n")
-			return StratCase{Tree: tr, Bars: gen.GenBars(t, n), M: genCut(t, n, w), Suffix: gen.GenBars(t, rapid.IntRange(0, w+12).Draw(t, "ns"))}
+			return StratCase{Tree: tr, Bars: genBars(t, n), M: genCut(t, n, w), Suffix: genBars(t, rapid.IntRange(0, w+12).Draw(t, "ns"))}
 		},
 		Check: stratCheck,
 	}
@@ -198,7 +207,7 @@ func treeProp() engine.AnyProp {
 			}
 			w := tr.MaxWarm()
 			n := rapid.IntRange(0, 2*w+25).Draw(t, "n")
-			return StratCase{Tree: tr, Bars: gen.GenBars(t, n), M: genCut(t, n, w), Suffix: gen.GenBars(t, rapid.IntRange(0, w+12).Draw(t, "ns"))}
+			return StratCase{Tree: tr, Bars: genBars(t, n), M: genCut(t, n, w), Suffix: genBars(t, rapid.IntRange(0, w+12).Draw(t, "ns"))}
 		},
 		Check: stratCheck,
 	}
